@@ -82,7 +82,7 @@ PROPS = {
     "C20": {
         "model_spec_ops": ["c snap"],
         "spec_ops": [],
-        "extra_props": ["C01Reach", "C03History", "ReachAll", "FullSys", "FullSysExample", "ReachForkExample"],
+        "extra_props": ["C01Reach", "C03History", "ReachAll", "FullSys", "FullSysExample"],
         "streams": [{"name": "ledger", "quick": 160, "thorough": 1600}, {"name": "sync", "quick": 64, "thorough": 800}],
         "rule": LEDGER_RULE + " The `snap` line dumps, canonically sorted: tree hashes, hashes in the stable-memory block cache, every cached tx out with value/address/height/reference count, per-block added and removed outpoints per address, announced headers by hash and by height, cached and recomputed tip depths.",
         "explanation": "theorems for every reachable state (no mid-block pause): block-cache hashes = tree hashes (Nodup, same length); keys of the per-block delta maps = tree hashes and their content = the blocks' projections; a tx-out entry exists iff referenced, count = number of references, content = true output; every outpoint a later query / fee computation / removal looks up is present (remove never fails); cached tip depths = recomputed, also after upgrade; announced headers: the two maps agree, none is a tree block, all heights > stable height after a pop, max height = maximum.",
